@@ -96,11 +96,17 @@ if [ "$mode" = "--replay" ]; then
     export GORACE="halt_on_error=0 log_path=$lp"
     extra=(-racelog "$lp")
   fi
-  out=$("$w" -replay "$file" -dir "$OUT/.tmp" "${extra[@]}"); rc=$?
-  rm -f "$OUT"/.tmp/replay-race-$$.*
-  [ $rc -ne 0 ] && { echo "HARNESS-TROUBLE: replay worker exit $rc"; exit 2; }
-  class=$(printf '%s' "$out" | python3 -c "import json,sys; d=json.load(sys.stdin); print(d['class']); sys.stderr.write(d['detail'][:4000]+'\n')")
   want=$(python3 -c "import json,sys; print(json.load(open(sys.argv[1]))['violation_class'])" "$file")
+  # a file marked "reproduces in some executions only" (the tree it was found on is nondeterministic by itself)
+  # is executed up to ten times
+  tries=1; [ "$(python3 -c "import json,sys; print(1 if json.load(open(sys.argv[1])).get('reproduces_in_some_executions_only') else 0)" "$file")" = 1 ] && tries=10
+  for t in $(seq 1 $tries); do
+    out=$("$w" -replay "$file" -dir "$OUT/.tmp" "${extra[@]}"); rc=$?
+    rm -f "$OUT"/.tmp/replay-race-$$.*
+    [ $rc -ne 0 ] && { echo "HARNESS-TROUBLE: replay worker exit $rc"; exit 2; }
+    class=$(printf '%s' "$out" | python3 -c "import json,sys; d=json.load(sys.stdin); print(d['class']); sys.stderr.write(d['detail'][:4000]+'\n')")
+    [ -n "$class" ] && break
+  done
   echo "replayed class: '${class}'  recorded class: '${want}'"
   if [ -n "$class" ] && { [ "$class" = "$want" ] || { [ "${class#race:}" != "$class" ] && [ "${want#race:}" != "$want" ]; }; }; then
     echo "VIOLATION property=$id replay=$file"
